@@ -167,6 +167,18 @@ def check_html_source():
     return r
 
 
+def check_rtf_source():
+    """read_rtf on source text: destination stripping (regexes + group walker)."""
+    R = _mod("ms_legacy.rtf_extractor")
+    r = Result()
+    for case, src, spec in TR.gen_rtf_sources():
+        res = list(R.read_rtf(io.BytesIO(src.encode("ascii"))))
+        out = "\n".join(x.get_full_text() for x in res)
+        ok, w = _cmp("rtf_extractor.read_rtf(...).get_full_text()", src, out, spec)
+        r.add(case, ok, w)
+    return r
+
+
 def check_odp_slide():
     OP = _mod("open_office.odp_extractor")
     r = Result()
@@ -306,7 +318,7 @@ CHECKS = {
     "docx.paragraph": check_docx_paragraph, "docx.table": check_docx_table, "docx.body": check_docx_body,
     "odt.body": check_odt_body, "html.extract": check_html_body, "odf.element_text": check_odf_text,
     "ods.sheet": check_ods_sheet, "xlsx.format": check_xlsx_format, "xls.format": check_xls_format,
-    "dt.slides": check_dt_slides, "odp.slide": check_odp_slide, "html.source": check_html_source, "odg.text": check_odg_text, "pptx.paragraphs": check_pptx_paragraphs,
+    "dt.slides": check_dt_slides, "odp.slide": check_odp_slide, "html.source": check_html_source, "rtf.source": check_rtf_source, "odg.text": check_odg_text, "pptx.paragraphs": check_pptx_paragraphs,
 }
 
 
@@ -336,6 +348,7 @@ FUNC_OF_CHECK = {
     "odf.element_text": "_shared.py::element_text",
     "odg.text": "odg_extractor.py::_extract_full_text", "pptx.paragraphs": "pptx_extractor.py::_extract_text_from_paragraphs",
     "odp.slide": "odp_extractor.py::_extract_slide", "html.source": "html_extractor.py::read_html",
+    "rtf.source": "rtf_extractor.py::read_rtf",
 }
 
 # obligation id fragment -> (check, cases, kinds)
@@ -352,6 +365,7 @@ WITNESS_MAP = [
     ("_extract_full_text_from_body/", "docx.body", ["plain", "content-control"], None),
     ("_shared.py::", "odf.element_text", None, None),
     ("_HtmlTreeBuilder.", "html.source", None, None),
+    ("_strip_rtf_full_with_pages/step", "rtf.source", None, None),
     ("_extract_slide/block#slide-text", "odp.slide", None, None),
     ("_extract_slide/block#speaker-notes", "odp.slide", None, ["leaked"]),
     ("xls_extractor.py::_format_sheet_as_text/", "xls.format", None, None),
